@@ -393,11 +393,15 @@ protected:
             std::visit([&](auto &x){
                using T = std::decay_t<decltype(x)>;
                if constexpr(std::is_same_v<T, promise>) {
+                   //resolve outside of the lock: a callback awaiter runs its callback
+                   //here and it can call the scheduler (cancel, schedule, sleep_for...)
+                   lk.unlock();
                    if constexpr(have_pool) {
                        pool->resume(x());
                    } else {
                        x();
                    }
+                   lk.lock();
                } else {
                    if constexpr(have_pool) {
                        if (!pool->any_enqueued() && coro_queue::can_block()) {
